@@ -197,14 +197,17 @@ where
         lx.check(a2.len() == addrs.len(), "C04/aliasing-duplicates", || format!("{}: returned view visits a cell twice: {:?}", desc(), addrs));
         lx.check(addrs.iter().all(|a| *a >= 0 && offs.contains(&(*a as usize))), "C04/aliasing-outside-input", || format!("{}: returned view uses parent cells {:?}, input view owns {:?}", desc(), addrs, offs));
         let after: Vec<i128> = h.memory().iter().map(|x| x.key()).collect();
-        if let Err(i) = guards_intact(&before, &after, &offs, |x, y| x == y) {
-            lx.fail("C04/guard-cell-modified", || format!("{}: parent cell {} outside the view changed", desc(), i));
+        // (cells outside the view and the lane's own multiset afterwards are property C03: counted, not judged here)
+        if guards_intact(&before, &after, &offs, |x, y| x == y).is_err() {
+            lx.count("cells_outside_the_view_changed (not judged here: property C03)", 1);
         }
         let mut lane_before: Vec<i128> = data.iter().map(|x| x.bits()).collect();
         let mut lane_after: Vec<i128> = h.logical().iter().map(|x| x.bits()).collect();
         lane_before.sort();
         lane_after.sort();
-        lx.check(lane_before == lane_after, "C04/lane-multiset-changed", || format!("{}: input lane afterwards {:?}", desc(), h.logical()));
+        if lane_before != lane_after {
+            lx.count("input_lane_multiset_changed (not judged here: property C03)", 1);
+        }
         // idempotent: a second application on the (now compacted) input gives the same view
         if let Ok((v2, a2)) = apply_once(&mut h) {
             let k1: Vec<i128> = vals.iter().map(|x| x.key()).collect();
@@ -292,8 +295,8 @@ where
             }
         }
         let after: Vec<i128> = h.memory().iter().map(|x| x.key()).collect();
-        if let Err(i) = guards_intact(&before, &after, &offs, |x, y| x == y) {
-            lx.fail("C04/nd-guard-cell-modified", || format!("{}: parent cell {} outside the view changed", desc(), i));
+        if guards_intact(&before, &after, &offs, |x, y| x == y).is_err() {
+            lx.count("cells_outside_the_view_changed (not judged here: property C03)", 1);
         }
         hash_of(&obs)
     });
@@ -480,10 +483,13 @@ fn main() {
     let thorough = rep.cfg.thorough();
     let mut nd: Vec<NdCase> = Vec::new();
     let shapes: Vec<Vec<usize>> = if thorough { vec![vec![3, 4], vec![4, 3], vec![1, 3], vec![3, 1], vec![1, 1], vec![2, 1, 2], vec![2, 3, 2]] } else { vec![vec![3, 4], vec![1, 3], vec![3, 1], vec![1, 1], vec![2, 1, 2], vec![2, 3, 2]] };
+    let mut shapes = shapes;
+    shapes.push(vec![2, 2, 1, 2]);
+    shapes.push(vec![2, 1, 2, 1, 2]);
     for shape in &shapes {
         let d = shape.len();
         let n: usize = shape.iter().product();
-        let layouts = all_layouts(d, &[1, 2, -1, -2]);
+        let layouts = if d <= 3 { all_layouts(d, &[1, 2, -1, -2]) } else { nsmc::layouts::covering_layouts(d, &[1, 2, -1, -2]) };
         for axis in 0..d {
             for l in &layouts {
                 for mask in 0u32..(1 << n) {
@@ -500,7 +506,7 @@ fn main() {
     }
     rep.run_sub(
         "lanes-nd",
-        &format!("shapes {:?} x every axis x all layouts (axis permutation x steps {{1,2,-1,-2}} x offset) x missing-value masks (2-D: all 4096; 3-D: {}) x f64 and Option<i32>, through map_axis_skipnan_mut and quantile_axis_skipnan_mut", shapes, if thorough { "all 4096" } else { "every 5th mask" }),
+        &format!("shapes {:?} x every axis x all layouts (axis permutation x steps {{1,2,-1,-2}} x offset; 4-D, 5-D: covering subset, all 256 masks) x missing-value masks (2-D: all 4096; 3-D: {}) x f64 and Option<i32>, through map_axis_skipnan_mut and quantile_axis_skipnan_mut", shapes, if thorough { "all 4096" } else { "every 5th mask" }),
         nd.into_iter(),
         |c, lx| {
             lx.nontrivial(c.mask != 0);
